@@ -19,7 +19,8 @@ Inductive val : Type :=
 | VBytes (b : list Z)
 | VList (l : list val)
 | VTuple (l : list val)
-| VEnum (e : string).        (* members of enum classes, by qualified name *)
+| VEnum (e : string)         (* members of enum classes, by qualified name *)
+| VObj (cls : string) (fields : list val).   (* an instance whose fields are only READ by the translated methods; fields in __init__ order *)
 
 Inductive binop := Add | Sub | Mul | FloorDiv | Mod | LShift | RShift | BitAnd | BitOr | BitXor | Pow.
 Inductive cmpop := Eq | NotEq | Lt | LtE | Gt | GtE | In_ | NotIn | Is | IsNot.
@@ -27,7 +28,7 @@ Inductive unop := Not | USub | Invert.
 
 Inductive builtin :=
 | BLen | BOrd | BChr | BRange | BDivmod | BHex | BBin | BFromHex
-| BFromBytesBig | BFromBytesLittle | BAny | BAll | BBytes | BInt | BStr | BMin | BMax | BBool | BListOf.
+| BFromBytesBig | BFromBytesLittle | BAny | BAll | BBytes | BInt | BStr | BMin | BMax | BBool | BListOf | BIsInt.
 
 Inductive meth :=
 | MLower | MUpper | MFind | MRfind | MIndex | MJoin | MToBytesBig | MToBytesLittle
@@ -46,6 +47,7 @@ Inductive expr : Type :=
 | EList (l : exprs)
 | ETuple (l : exprs)
 | EIndex (a i : expr)
+| EField (a : expr) (i : nat) (name : string)         (* self.name, the i-th field *)
 | ESlice (a : expr) (lo hi : option expr)
 | ECall (f : string) (args : exprs)                    (* a translated or external function *)
 | EBuiltin (b : builtin) (args : exprs)
